@@ -3,6 +3,7 @@ Whole-gadget lifting: every product wire is a structural fmul atom, everything e
 import json, random, time
 import z3
 from common import Run, run_dump, main_guard, dumper_oracle, dumper_solve
+from common import BuildError as common_BuildError
 from lift import Lifter, ONE, Inconclusive, eval_r1cs
 import poseidon_ref
 
@@ -221,6 +222,38 @@ def main():
                         break
             if not found:
                 run.inconclusive.append('multi-call difference did not reproduce concretely')
+        # ---- purity of the gadget definitions (GOSYM): no write to state that exists before the definition (tables, package-level config)
+        try:
+            import driver, stubs
+            from gosym import Exec, Unsupported
+            e = 'VerifHarness_C05_Purity'
+            prog, secs = driver.load('prover/poseidon', 'poseidon', ['c05_harness.go', 'c05_intr_sym.go'], [e])
+            ex = Exec(prog, stubs.make_stubs(stubs.gadget_exec_stubs()), loop_bound=400, max_paths=200)
+            t0 = time.time()
+            res = ex.run([n for n in prog['funcs'] if n.endswith('.' + e)][0])
+            writes, reads, bad = [], 0, [r for r in res if r.status != 'ok']
+            for r in res:
+                begun = False
+                for ev in r.state.events:
+                    if ev[0] == 'invocation-begin':
+                        begun = True
+                    elif begun and ev[0] == 'shared_write':
+                        writes.append(ev)
+                    elif begun and ev[0] == 'shared_read':
+                        reads += 1
+            if bad:
+                run.inconclusive.append('purity harness: path ends with %s: %s' % (bad[0].status, str(bad[0].info)[:200]))
+            run.obligation('defining Poseidon1/Poseidon2 writes no pre-existing state (package tables/config are only read: %d reads), so concurrent or repeated definitions cannot interfere' % reads,
+                           'unsat' if not writes and not bad else ('sat' if writes else 'unknown'), 'unsat', time.time() - t0, writes=[str(w[3]) for w in writes[:5]])
+            if writes:
+                failed, panicked, out = driver.replay_native('prover/poseidon', 'poseidon', ['c05_native.go'], 'VerifHarness_C05_Native', {}, timeout=900)
+                if failed or panicked:
+                    run.violation('gadget definition writes shared state at %s -- natively, concurrent/sequential definitions of Poseidon1 and Poseidon2 do not give the reference hash: %s' % (writes[0][3], (failed or ['panic'])[:2]),
+                                  {'writes': [str(w) for w in writes[:5]], 'native_failed': failed, 'native_output_tail': out[-1200:]}, key='poseidon-shared-state')
+                else:
+                    run.inconclusive.append('shared write at %s during gadget definition, but the native concurrent run gives reference values' % (writes[0][3],))
+        except common_BuildError as x:
+            run.inconclusive.append('purity harness does not build: %s' % str(x)[-300:])
         run.samples = run.obls[:3]
         run.assumptions += ['"textbook Poseidon with Grain-generated parameters == iden3/circomlib optimised Poseidon for all inputs" is a third-party polynomial identity: cross-validated on %d points each run, not proven' % len(pts),
                             'equality is decided in linear arithmetic mod p + congruence on structural product atoms (commutative, power products flattened)']
